@@ -5,6 +5,7 @@ import (
 	"fmt"
 	"regexp"
 	"sort"
+	"strconv"
 	"strings"
 
 	mxj "github.com/clbanning/mxj/v2"
@@ -49,6 +50,8 @@ func short(s string) string {
 	}
 	return s
 }
+
+var indexRe = regexp.MustCompile(`\[\d+\]`)
 
 func replayVfp(line []byte, a *Acc) {
 	var l vfpLine
@@ -103,6 +106,18 @@ func replayVfp(line []byte, a *Acc) {
 			one("vfp:"+kind+":shape="+pathShape(c.P),
 				fmt.Sprintf("ValuesForPath(%q) on %s: got %s, spec %s", c.P, short(before), short(strings.Join(g, " ")), short(strings.Join(exp, " "))))
 			continue
+		}
+		// an index written with leading zeros is the same decimal number (a[010] is the eleventh member, not the ninth)
+		if strings.Contains(c.P, "[") {
+			padded := indexRe.ReplaceAllStringFunc(c.P, func(m string) string { n, _ := strconv.Atoi(m[1 : len(m)-1]); return fmt.Sprintf("[%03d]", n) })
+			if padded != c.P {
+				var gp []interface{}
+				var ep error
+				if p := guard(func() { gp, ep = mv.ValuesForPath(padded) }); p != "" || ep != nil || !tagged.SameBag(tagged.CanonList(gp), g) {
+					one("vfp:padded-index", fmt.Sprintf("ValuesForPath(%q) on %s: got %s (err %v %s), ValuesForPath(%q) gives %s", padded, short(before), short(strings.Join(tagged.CanonList(gp), " ")), ep, p, c.P, short(strings.Join(g, " "))))
+					continue
+				}
+			}
 		}
 		// ValueForPath / Exists / ValueForPathString consistency
 		var v1 interface{}
@@ -528,7 +543,7 @@ func replayLeaf(line []byte, a *Acc) {
 		// prefixes under which no key of the alphabet is an attribute / under which "-x" is one
 		prefixes := []string{"@", "", "-y", "-xx"}
 		if len(c.Ak) > 0 {
-			prefixes = []string{"-", "-x"}
+			prefixes = []string{"-", c.Ak[0]} // (the whole attribute key as the prefix, too)
 		}
 		exp := make([]string, len(c.R))
 		expP := make([]string, len(c.R))
